@@ -57,6 +57,20 @@ pub fn pool() -> Vec<Vec<PathControlPoint>> {
             p(50., 10., None),
             p(50., 10., None),
         ],
+        // one bezier segment of five points, and a perfect curve that is too flat for an arc and falls back to
+        // a three-point bezier: the bezier scratch buffers shrink and grow between entries
+        vec![
+            p(0., 0., Some(PathType::BEZIER)),
+            p(40., 90., None),
+            p(80., -60., None),
+            p(120., 70., None),
+            p(160., 0., None),
+        ],
+        vec![
+            p(0., 0., Some(PathType::PERFECT_CURVE)),
+            p(50., 0., None),
+            p(100., 0., None),
+        ],
     ]
 }
 
@@ -322,7 +336,7 @@ pub fn run(tier: Tier) -> i32 {
         caps_hit: capped.map(|d| vec![format!("state cap at depth {d}")]).unwrap_or_default(),
         assumptions: vec![
             "Debug output of CurveBuffers and SliderPath is a complete state description".into(),
-            "pool of six control-point lists (empty, single, linear, perfect, 2-segment bezier, catmull)".into(),
+            "pool of nine control-point lists (empty, single, linear, perfect, 2-segment bezier, two catmull, 5-point bezier, collinear perfect)".into(),
         ],
     };
     finish(&run, acc, summary)
